@@ -111,6 +111,9 @@ func runCheck(repo, prop, tier string, opts SolveOpts) int {
 		return fail("cannot load /repo with contracts: " + err.Error())
 	}
 	eng.computeEffects()
+	if prop == "C18" {
+		return runFrameProperty(eng, prop, tier, seed, t0, vdir, evPath)
+	}
 	var items []*Contract
 	for _, c := range eng.Items {
 		if c.hasProp(prop) {
@@ -342,3 +345,80 @@ func verifyIfaceContract(eng *Engine, c *Contract, opts SolveOpts) *FuncResult {
 
 // addBounded is the hook for bounded stand-ins (never counted as discharged obligations).
 func addBounded(eng *Engine, prop, tier string, ev *Evidence, exit *int, vdir string) {}
+
+// runFrameProperty decides C18 by the whole-module frame (effect) checker instead of SMT obligations.
+func runFrameProperty(eng *Engine, prop, tier string, seed int, t0 time.Time, vdir, evPath string) int {
+	sites, fa := runFrameCheck(eng)
+	known := loadKnownFindings(vdir)
+	total, ok := 0, 0
+	var samples []interface{}
+	exit := 0
+	violations := 0
+	var knownPrinted []string
+	for _, s := range sites {
+		total++
+		if s.ok {
+			ok++
+			if len(samples) < 10 {
+				samples = append(samples, map[string]interface{}{"obligation": "frame: " + s.String(eng), "status": "target not reachable from any package-level variable"})
+			}
+			continue
+		}
+		name := "frame#" + shortFuncName(s.fn) + ":" + s.what
+		isKnown := false
+		for _, k := range known {
+			if k.Status == "known" && k.Property == prop && k.Obligation == name {
+				msg := fmt.Sprintf("KNOWN-FINDING: property=%s %s %s", prop, name, k.What)
+				fmt.Println(msg)
+				knownPrinted = append(knownPrinted, msg)
+				isKnown = true
+			}
+		}
+		if isKnown {
+			ok++
+			continue
+		}
+		violations++
+		exit = 1
+		rp := filepath.Join(vdir, "replays", prop, sanitizeFile(name)+".json")
+		os.MkdirAll(filepath.Dir(rp), 0o755)
+		b, _ := json.MarshalIndent(map[string]interface{}{"property": prop, "obligation": name, "site": s.String(eng),
+			"solver_output": "frame checker: the written object may be reachable from a package-level variable (global-reachability taint reaches the store target)",
+			"note":          "no schedule is constructed by this technique; the obligation is the absence of writes to shared state"}, "", " ")
+		os.WriteFile(rp, b, 0o644)
+		fmt.Printf("  failed obligation %s\n", s.String(eng))
+		fmt.Printf("VIOLATION property=%s replay=%s obligation=%s no-failing-input-found\n", prop, rp, name)
+	}
+	var entries []string
+	for _, e := range fa.entries {
+		entries = append(entries, shortFuncName(e))
+	}
+	if len(entries) > 40 {
+		entries = append(entries[:40], fmt.Sprintf("... (%d entry points in total)", len(fa.entries)))
+	}
+	if len(samples) == 0 {
+		samples = append(samples, "no write sites")
+	}
+	ev := Evidence{PropertyID: prop, Tier: tier, Seed: seed, Level: "proof", WallS: time.Since(t0).Seconds(), Violations: violations,
+		Assumptions: []string{
+			"the Go memory model: a data race needs two conflicting accesses to one location, at least one a write; code that never writes a location reachable from shared (package-level) state cannot race on library state when callers use private instances",
+			"call graph by class-hierarchy analysis over the module (interface calls resolved to every implementing method, function values to every module function of identical signature)",
+			"external packages (standard library, x/text, xerrors) are assumed not to write module state",
+			"package initialisers are the only code allowed to write package-level state; they run before any reader or writer call",
+			"no schedule exploration and no -race run is part of this check"},
+		Coverage: map[string]interface{}{
+			"obligations": total, "discharged": ok,
+			"checker_cmd":                           fmt.Sprintf("bin/govc check --property %s --tier %s", prop, tier),
+			"trusted_base":                          []string{"govc frame/effect checker (global-reachability taint over go/ssa)", "go/ssa + go/types (golang.org/x/tools v0.29.0)"},
+			"samples":                               samples,
+			"entry_points":                          entries,
+			"functions_reachable_from_entry_points": len(fa.order),
+			"write_sites_checked":                   total,
+			"known_findings_printed":                knownPrinted,
+			"explanation":                           "every store, map update, append/copy destination in every function reachable from a reader/writer entry point is an obligation: its target must not be reachable from a package-level variable",
+		}}
+	b, _ := json.MarshalIndent(ev, "", " ")
+	os.WriteFile(evPath, b, 0o644)
+	fmt.Printf("property %s tier %s: %d/%d write sites in %d reachable functions are frame-safe, %d violation(s), %.1fs\n", prop, tier, ok, total, len(fa.order), violations, time.Since(t0).Seconds())
+	return exit
+}
